@@ -13,6 +13,7 @@ import (
 	"path/filepath"
 	"regexp"
 	"runtime"
+	"runtime/debug"
 	"runtime/pprof"
 	"sort"
 	"strings"
@@ -38,6 +39,7 @@ func envOr(k, d string) string {
 }
 
 func main() {
+	debug.SetGCPercent(400)
 	if pf := os.Getenv("VERIF_PROF"); pf != "" {
 		f, _ := os.Create(pf)
 		pprof.StartCPUProfile(f)
